@@ -30,9 +30,10 @@ ASSUMPTIONS = ["named types are not called like a built-in type name", "logical 
                "dict insertion order of the result is not compared (DESIGN 1.3)",
                "str defaults that float() would accept ('1.5', 'nan') are not generated for unions containing float/double"]
 PARTIAL = ["C08_factor is proved as C08_factor_code (rdec = decode ; rval: all schema pairs, options, layouts) + C08_factor_zone_partial (rval = resolve for "
-           "schemas without by-name references/annotations under the computable condition `agree`: no empty reader union, no empty-string enum default, "
-           "well-formed JSON defaults); that the code's match verdicts / reader-union branch choice / record guard coincide with the specification's is proved "
-           "for these schemas; missing: the zone theorem for schemas with by-name references and dict-form primitives. The full statement was false of the "
+           "schemas without by-name references under the computable condition `agree`, C08_factor_zone_refs_partial for schemas with by-name references / "
+           "recursive types under `agreen k` (k >= height of the value): no empty reader union, no empty-string enum default, well-formed JSON defaults); that "
+           "the code's match verdicts / reader-union branch choice / record guard coincide with the specification's is proved; missing: logicalType annotations "
+           "on non-primitive types, nested unions, reader options. The full statement was false of the "
            "code before the repairs (C08_old_code_refuted_*, about model/ResolveOld.v)"]
 
 SRE = "SchemaResolutionError"
@@ -734,8 +735,9 @@ def compare(ctx, c, route, res, mtext, with_rest, corr="corr:resolve"):
     rd, spec, zone = mtext.split(";")
     ic = impl_class(res)
     default_opts = not c.ropts
-    if zone == "Z1" and default_opts:
-        ctx.notes["cases_inside_agreement_zone"] = ctx.notes.get("cases_inside_agreement_zone", 0) + 1
+    if zone in ("Z1", "Z2") and default_opts:
+        key = "cases_inside_agreement_zone" if zone == "Z1" else "cases_inside_agreement_zone_with_references(depth<=32)"
+        ctx.notes[key] = ctx.notes.get(key, 0) + 1
         if rd.split("|")[0].replace("R:", "V:", 1) != spec:
             ctx.violation(corr, c.to_json(route), impl=None, model=mtext[:600], signature="C08:model:theorem-C08_factor_zone-contradicted",
                           found_input=False)
@@ -861,7 +863,7 @@ def replay(ctx, rep):
         ic = impl_class(res)
         print("[%s] implementation: %s" % (route, G.show_py(res[1]) if ic == "V" else "%s %s %s" % (ic, res[1], res[2])))
         print("[%s] model rdec     : %s" % (route, rd[:600]))
-        print("[%s] specification  : %s   (%s the agreement zone)" % (route, spec[:600], "inside" if zone == "Z1" else "outside"))
+        print("[%s] specification  : %s   (%s the agreement zone)" % (route, spec[:600], "inside" if zone in ("Z1", "Z2") else "outside"))
         if c.ropts:
             continue
         if spec.startswith("V:"):
